@@ -128,7 +128,22 @@ def _local_docs():
             "Archive": {"type": "object", "properties": {"alpha": {"$ref": S + "Status", "default": "new"}, "last": {"$ref": S + "Status"}}},
         }},
     }
-    return {"local:shared-component-parameters": shared, "local:acyclic-graph": acyclic, "local:ref-siblings": siblings}
+    # same-named inline enums / inline objects inside ANONYMOUS parents (allOf members of two subtypes), and an inline enum on a schema of a reference cycle:
+    # whatever names the generator derives for them must not depend on the order of components.schemas
+    inline_names = {
+        "openapi": "3.0.3", "info": {"title": "inline-names", "version": "1"},
+        "paths": {"/c": {"get": {"operationId": "getCat", "tags": ["z"], "responses": {"200": {"description": "o", "content": {"application/json": {"schema": {"$ref": S + "Cat"}}}},
+                                                                                     "201": {"description": "d", "content": {"application/json": {"schema": {"$ref": S + "Dog"}}}},
+                                                                                     "202": {"description": "p", "content": {"application/json": {"schema": {"$ref": S + "Pet"}}}}}}}},
+        "components": {"schemas": {
+            "Base": {"type": "object", "required": ["id"], "properties": {"id": {"type": "string"}}},
+            "Cat": {"allOf": [{"$ref": S + "Base"}, {"type": "object", "properties": {"size": {"type": "string", "enum": ["s", "m"]}, "home": {"type": "object", "properties": {"room": {"type": "string"}}}}}]},
+            "Dog": {"allOf": [{"$ref": S + "Base"}, {"type": "object", "properties": {"size": {"type": "string", "enum": ["s", "m"]}, "home": {"type": "object", "properties": {"room": {"type": "string"}}}}}]},
+            "Pet": {"type": "object", "properties": {"kind": {"type": "string", "enum": ["cat", "dog"]}, "owner": {"$ref": S + "Owner"}}},
+            "Owner": {"type": "object", "properties": {"name": {"type": "string"}, "pets": {"type": "array", "items": {"$ref": S + "Pet"}}}},
+        }},
+    }
+    return {"local:shared-component-parameters": shared, "local:acyclic-graph": acyclic, "local:ref-siblings": siblings, "local:inline-names": inline_names}
 
 
 def bounded_renderings_and_orders(tier, seed):
